@@ -705,7 +705,9 @@ def correspondence(ctx, budget=None):
         "server.close(); streams: (a) exhaustive DFS over valid actions (tracker on the real objects) for small pools, (b) systematic: "
         "pools of 0..3 ports x 1..3 sessions x per-port fault (free, busy once, always busy, other OSError once) x cancel point "
         "(none | session j at suspension point 1|2 by QUIT/EOF/close) x sequential/round-robin start-ups x end mode, followed by a "
-        "second PASV, a LIST transfer and everybody leaving, (c) random walks over 3 sessions / 1-3 ports incl. a duplicated port; "
+        "second PASV, a LIST transfer and everybody leaving; the same scripts on an IPv6 listener (::1: PASV opens and stores the "
+        "listener, then answers 503 and ends the session; first commands mixed PASV/EPSV or all EPSV) and exhaustive DFS on IPv6, "
+        "(c) random walks (a quarter of them on IPv6) over 3 sessions / 1-3 ports incl. a duplicated port; "
         "one evaluation = one (pool, history prefix): pool contents with priorities, listener per session, start-ups in flight, "
         "orphan listeners, reply codes compared with the model + the multiset equation on the real objects; non-trivial = distinct."
     )
@@ -916,5 +918,10 @@ def replay(ctx, data):
     for k, key, text in found:
         print("ORACLE", key, text)
     # the verdict is about the recorded action and the recorded key (the same action may also hit a listed finding)
-    hits = [(k, key) for (k, key, _) in found if (upto is None or k == upto - 1) and (want is None or key == want)]
+    if want == "c11-quiet-lost":
+        # recorded by the correspondence for a whole history that the model calls quiet (no cancellation inside a
+        # start-up, no overlap): on such a history ANY loss / duplicate / orphan is the violation
+        hits = [(k, key) for (k, key, _) in found]
+    else:
+        hits = [(k, key) for (k, key, _) in found if (upto is None or k == upto - 1) and (want is None or key == want)]
     return not hits
